@@ -7,7 +7,6 @@ def run(chk):
                 'non-trivial = the two thresholds give different numbers of clusters; cognate-set clause: LexStat.cluster at two '
                 'thresholds on generated wordlists (see C06)')
     chk.lean_obligations()
-    cc.correspondence(chk, with_oracle=False)
     cc.threshold_pairs(chk)
     try:
         from props import lexstat_common as lc
